@@ -209,6 +209,23 @@ mod verif_driver_reduce {
                 }
             }
         }
+        // the reported key is the key that is looked up: parameter names are taken verbatim (a TIR need not come from the
+        // lowering, which lower-cases names), so supplying exactly what `find_params` reports closes the template
+        for pname in ["lockedAmount", "P", "p_1", "\u{e9}t\u{e9}"] {
+            for (pos, tx) in tx_positions(marker(pname)) {
+                n += 1;
+                let input = format!("ExpectValue({pname}) at Tx.{pos}");
+                let params = find_params(&tx);
+                let args: BTreeMap<String, ArgValue> = params.keys().map(|k| (k.clone(), ArgValue::Int(7))).collect();
+                if !params.contains_key(pname) {
+                    witness("c06_traversal/params#postcondition", "params", input.clone(), format!("find_params = {:?}", params.keys().collect::<Vec<_>>()), "the parameter is reported under its own name");
+                }
+                match quiet(|| apply_args(tx.clone(), &args)) {
+                    Ok(Ok(t2)) => if count(&t2, "ExpectValue(") != 0 { witness("c06_traversal/apply_args#postcondition", "apply_args", input.clone(), "ExpectValue survives apply_args with exactly the reported keys supplied".into(), "after applying every reported parameter none remains") },
+                    other => witness("c06_traversal/apply_args#postcondition", "apply_args", input.clone(), format!("{:?}", other.map(|x| x.map(|_| ()))), "Ok"),
+                }
+            }
+        }
         for (wname, wexpr) in wrappers(fee_marker()) {
             for (pos, tx) in tx_positions(wexpr.clone()) {
                 n += 1;
